@@ -1105,7 +1105,10 @@ class Evaluator:
         if l is TOP or r is TOP or isinstance(l, Obj) or isinstance(r, Obj):
             if isinstance(l, Obj) or isinstance(r, Obj):
                 o = l if isinstance(l, Obj) else r
-                return o.with_eff((type(op).__name__.lower(), r if o is l else l))
+                name = type(op).__name__.lower()
+                if o is not l:  # `other < array` is `array > other`
+                    name = {"lt": "gt", "gt": "lt", "lte": "gte", "gte": "lte"}[name]
+                return o.with_eff((name, r if o is l else l))
             return TOP
         ll, rr = Lin.of(l), Lin.of(r)
         if ll is not None and rr is not None:
